@@ -51,6 +51,9 @@ pub struct Scenario {
     pub fake_time: i64,
     pub fault: Fault,
     pub lsp: Vec<LspStep>,
+    /// a second workspace folder `fb/` (its accepted one-module program is part of `files`)
+    #[serde(default)]
+    pub folder_b: bool,
 }
 
 #[derive(Clone, Debug, Default)]
@@ -389,8 +392,13 @@ pub fn check_lsp(world: &World, scn: &Scenario, o0: &Outcome) -> (Option<Violati
         disk: scn.files.clone(),
         open: BTreeMap::new(),
         folder_present: true,
+        folder_b_present: scn.folder_b,
+        deleted: BTreeMap::new(),
     };
-    let mut peer = Peer::new(world, true);
+    if scn.folder_b {
+        world.write("fb/oal.toml", CONFIG);
+    }
+    let mut peer = Peer::new2(world, true, scn.folder_b);
     for s in &scn.lsp {
         match s {
             LspStep::Open(p) => {
@@ -415,7 +423,8 @@ pub fn check_lsp(world: &World, scn: &Scenario, o0: &Outcome) -> (Option<Violati
     if !peer.server.alive() {
         return (None, 0);
     }
-    let n: usize = peer.diags.values().map(|d| d.len()).sum();
+    // diagnostics of the compiled program's own documents (the second folder's program is accepted)
+    let n: usize = peer.diags.iter().filter(|(p, _)| !p.starts_with("fb/")).map(|(_, d)| d.len()).sum();
     let cli_failed = o0.exit != Some(0);
     if (n >= 1) != cli_failed {
         return (
@@ -645,6 +654,11 @@ pub fn run(seed: u64, run: u64) -> Report {
         files.insert("scratch.oal".into(), "let unrelated = num;\n".into());
         probes.push("unrelated_document_present".into());
     }
+    let folder_b = sr.chance(1, 3);
+    if folder_b {
+        files.insert("fb/main.oal".into(), "let item = { 'id num };\nres /b on get -> <item>;\n".into());
+        probes.push("second_workspace_folder".into());
+    }
     let paths: Vec<String> = files.keys().cloned().collect();
     let mut lsp = Vec::new();
     for _ in 0..sr.range(0, 5) {
@@ -663,6 +677,7 @@ pub fn run(seed: u64, run: u64) -> Report {
         fake_time: 1_700_000_000 + (er.below(3) as i64) * 86_400,
         fault: Fault::None,
         lsp,
+        folder_b,
     };
     probes.push(["config_options", "config_file", "options_override_file"][scn.config_mode as usize].to_string());
     if scn.with_base {
@@ -751,6 +766,10 @@ fn minimise(c: &Cfg, world: &World, scn: &Scenario, sig: &str) -> Scenario {
     // simpler configuration first
     for f in [
         |s: &mut Scenario| s.lsp.clear(),
+        |s: &mut Scenario| {
+            s.folder_b = false;
+            s.files.remove("fb/main.oal");
+        },
         |s: &mut Scenario| s.with_base = false,
         |s: &mut Scenario| s.config_mode = 0,
         |s: &mut Scenario| s.hash_seed = 0,
